@@ -23,7 +23,7 @@ XV = os.path.join(HARNESS, "target", "verif", "xv")
 WORK = os.path.join(ROOT, "work")
 EVID = os.path.join(ROOT, "evidence")
 REPLAYS = os.path.join(ROOT, "replays")
-REPO = "/repo"
+REPO = os.environ.get("VERIF_REPO", "/repo")   # development only: background runs against a snapshot of /repo
 NCPU = os.cpu_count() or 8
 
 
@@ -50,6 +50,11 @@ def build():
     t0 = time.time()
     env = dict(os.environ, CARGO_NET_OFFLINE="true")
     lock = os.path.join(HARNESS, "Cargo.lock")
+    if REPO != "/repo":
+        ct = os.path.join(HARNESS, "Cargo.toml")
+        txt = open(ct).read()
+        if 'path = "/repo"' in txt:
+            open(ct, "w").write(txt.replace('path = "/repo"', 'path = "%s"' % REPO))
     if not os.path.exists(lock):
         shutil.copy(os.path.join(REPO, "Cargo.lock"), lock)
     p = subprocess.run(["cargo", "build", "--profile", "verif", "--offline", "-q"],
